@@ -1,207 +1,208 @@
 package main
 
-// C13 facts: the registration order of the create / update / delete / query pipelines in
-// callbacks/callbacks.go (RegisterDefaultCallbacks) and, for every hook callback, the order in which
-// its closure tries the hook interfaces — both extracted from the CURRENT source with go/parser.
-// Anything that is not a plain `<proc>.Register(name, fn)` / `<proc>.Match(enableTransaction).Register(name, fn)`
-// statement on a processor variable is reported in c13_unknown, which FactsOK_C13 requires to be empty.
+// C13 facts, read from the RUNNING gorm (the one this binary is linked against: the tree under check),
+// not from its source text:
+//   * every default callback the model knows is wrapped, through the public API
+//     (processor.Get + processor.Replace, which keeps the position), by a tracer that logs its name
+//     and calls the original handler; a probe model type with all nine hooks logs every hook call;
+//     the recording driver supplies BEGIN / COMMIT.  One Create / Updates / Delete / First on real
+//     SQLite then yields the execution order of the callbacks of each pipeline, which hooks each
+//     callback runs and in which order, and that the transaction brackets everything - with the
+//     default transaction and with SkipDefaultTransaction (the two transaction callbacks are the only
+//     conditional ones).
+//   * best effort, by reflection on the processors: the names of ALL registered callbacks, so that a
+//     callback the model does not know shows up (skipped, and said so, when the unexported fields
+//     cannot be found).
+// FactsOK_C13 compares these runs with what the model's pipelines predict.
 
 import (
 	"fmt"
-	"go/ast"
-	"go/parser"
-	"go/token"
 	"io"
-	"path/filepath"
+	"reflect"
+	"sort"
 	"strings"
+
+	"gorm.io/gorm"
+	"gorm.io/gorm/logger"
+
+	"verifharness/gdb"
+	"verifharness/recdrv"
 )
 
-type c13Reg struct {
-	Name  string `json:"name"`
-	Func  string `json:"func"`
-	Match bool   `json:"match"`
+type c13Item struct {
+	pos  int // driver events recorded when the item was logged
+	text string
+}
+
+var (
+	c13Log []c13Item
+	c13Rec *recdrv.Recorder
+)
+
+func c13Note(s string) {
+	n := 0
+	if c13Rec != nil {
+		n = len(c13Rec.Snapshot())
+	}
+	c13Log = append(c13Log, c13Item{n, s})
+}
+
+// C13Probe has every hook; each logs itself.
+type C13Probe struct {
+	ID   int64 `gorm:"primaryKey"`
+	Name string
+}
+
+func (p *C13Probe) BeforeSave(tx *gorm.DB) error   { c13Note("BeforeSave"); return nil }
+func (p *C13Probe) BeforeCreate(tx *gorm.DB) error { c13Note("BeforeCreate"); return nil }
+func (p *C13Probe) AfterCreate(tx *gorm.DB) error  { c13Note("AfterCreate"); return nil }
+func (p *C13Probe) AfterSave(tx *gorm.DB) error    { c13Note("AfterSave"); return nil }
+func (p *C13Probe) BeforeUpdate(tx *gorm.DB) error { c13Note("BeforeUpdate"); return nil }
+func (p *C13Probe) AfterUpdate(tx *gorm.DB) error  { c13Note("AfterUpdate"); return nil }
+func (p *C13Probe) BeforeDelete(tx *gorm.DB) error { c13Note("BeforeDelete"); return nil }
+func (p *C13Probe) AfterDelete(tx *gorm.DB) error  { c13Note("AfterDelete"); return nil }
+func (p *C13Probe) AfterFind(tx *gorm.DB) error    { c13Note("AfterFind"); return nil }
+
+var c13Traced = map[string][]string{
+	"create": {"gorm:before_create", "gorm:save_before_associations", "gorm:create", "gorm:save_after_associations", "gorm:after_create"},
+	"update": {"gorm:setup_reflect_value", "gorm:before_update", "gorm:save_before_associations", "gorm:update", "gorm:save_after_associations", "gorm:after_update"},
+	"delete": {"gorm:before_delete", "gorm:delete_before_associations", "gorm:delete", "gorm:after_delete"},
+	"query":  {"gorm:query", "gorm:preload", "gorm:after_query"},
+}
+
+type c13Processor interface {
+	Get(name string) func(*gorm.DB)
+	Replace(name string, fn func(*gorm.DB)) error
 }
 
 func c13Str(s string) string { return "\"" + strings.ReplaceAll(s, "\"", "\"\"") + "\"%string" }
 
-func c13FuncName(e ast.Expr) string {
-	switch x := e.(type) {
-	case *ast.Ident:
-		return x.Name
-	case *ast.CallExpr:
-		return c13FuncName(x.Fun)
-	case *ast.SelectorExpr:
-		return x.Sel.Name
+func c13List(xs []string) string {
+	out := make([]string, len(xs))
+	for i, x := range xs {
+		out[i] = c13Str(x)
 	}
-	return "?"
+	return "[" + strings.Join(out, "; ") + "]"
+}
+
+// registered names of a processor, by reflection (best effort)
+func c13Names(p interface{}) ([]string, bool) {
+	v := reflect.ValueOf(p)
+	if v.Kind() != reflect.Ptr || v.IsNil() {
+		return nil, false
+	}
+	cbs := v.Elem().FieldByName("callbacks")
+	if !cbs.IsValid() || cbs.Kind() != reflect.Slice {
+		return nil, false
+	}
+	names := []string{}
+	for i := 0; i < cbs.Len(); i++ {
+		c := cbs.Index(i)
+		if c.Kind() == reflect.Ptr {
+			c = c.Elem()
+		}
+		n := c.FieldByName("name")
+		if !n.IsValid() || n.Kind() != reflect.String {
+			return nil, false
+		}
+		if rm := c.FieldByName("remove"); rm.IsValid() && rm.Kind() == reflect.Bool && rm.Bool() {
+			continue
+		}
+		names = append(names, n.String())
+	}
+	return names, true
 }
 
 func init() {
 	Extractors["C13"] = func(repo string, w io.Writer) (interface{}, error) {
-		fset := token.NewFileSet()
-		f, err := parser.ParseFile(fset, filepath.Join(repo, "callbacks", "callbacks.go"), nil, 0)
+		db, rec, sqlDB, err := gdb.Open(gdb.Opt{DSN: "file:c13facts?mode=memory&cache=shared", Config: &gorm.Config{Logger: logger.Discard}})
 		if err != nil {
 			return nil, err
 		}
-		procOf := map[string]string{} // variable -> processor (create/query/...)
-		regs := map[string][]c13Reg{}
+		defer sqlDB.Close()
+		if err := db.Session(&gorm.Session{SkipHooks: true}).AutoMigrate(&C13Probe{}); err != nil {
+			return nil, err
+		}
 		unknown := []string{}
-		var body *ast.BlockStmt
-		for _, d := range f.Decls {
-			if fd, ok := d.(*ast.FuncDecl); ok && fd.Name.Name == "RegisterDefaultCallbacks" {
-				body = fd.Body
+		procs := map[string]c13Processor{"create": db.Callback().Create(), "update": db.Callback().Update(),
+			"delete": db.Callback().Delete(), "query": db.Callback().Query()}
+		// names before tracing (Replace appends entries)
+		names := map[string][]string{}
+		reflected := true
+		for _, k := range []string{"create", "update", "delete", "query"} {
+			ns, ok := c13Names(procs[k])
+			if !ok {
+				reflected = false
+			}
+			sort.Strings(ns)
+			names[k] = ns
+		}
+		for _, k := range []string{"create", "update", "delete", "query"} {
+			for _, n := range c13Traced[k] {
+				name := n
+				orig := procs[k].Get(name)
+				if orig == nil {
+					unknown = append(unknown, k+": no callback named "+name)
+					continue
+				}
+				if err := procs[k].Replace(name, func(d *gorm.DB) { c13Note(name); orig(d) }); err != nil {
+					unknown = append(unknown, k+": cannot wrap "+name+": "+err.Error())
+				}
 			}
 		}
-		if body == nil {
-			return nil, fmt.Errorf("RegisterDefaultCallbacks not found")
+		c13Rec = rec
+		run := func(h *gorm.DB, f func(h *gorm.DB) error) []string {
+			rec.Reset()
+			c13Log = nil
+			if err := f(h); err != nil {
+				unknown = append(unknown, "probe operation failed: "+err.Error())
+			}
+			evs := rec.Snapshot()
+			out := []string{}
+			li := 0
+			flush := func(upto int) {
+				for li < len(c13Log) && c13Log[li].pos <= upto {
+					out = append(out, c13Log[li].text)
+					li++
+				}
+			}
+			for i, e := range evs {
+				flush(i)
+				switch e.Kind {
+				case "begin", "commit", "rollback":
+					out = append(out, e.Kind)
+				}
+			}
+			flush(len(evs) + 1)
+			return out
 		}
-		pos := func(n ast.Node) string { return fset.Position(n.Pos()).String() }
-		for _, st := range body.List {
-			switch s := st.(type) {
-			case *ast.AssignStmt:
-				// xCallback := db.Callback().Create()
-				if len(s.Lhs) == 1 && len(s.Rhs) == 1 {
-					if id, ok := s.Lhs[0].(*ast.Ident); ok {
-						if call, ok := s.Rhs[0].(*ast.CallExpr); ok {
-							if sel, ok := call.Fun.(*ast.SelectorExpr); ok {
-								if inner, ok := sel.X.(*ast.CallExpr); ok {
-									if isel, ok := inner.Fun.(*ast.SelectorExpr); ok && isel.Sel.Name == "Callback" {
-										procOf[id.Name] = strings.ToLower(sel.Sel.Name)
-									}
-								}
-							}
-						}
-					}
-				}
-				// assignments to processor fields (x.Clauses = ...) are irrelevant to the order
-				if len(s.Lhs) == 1 {
-					if sel, ok := s.Lhs[0].(*ast.SelectorExpr); ok {
-						if id, ok := sel.X.(*ast.Ident); ok {
-							if _, isProc := procOf[id.Name]; isProc && sel.Sel.Name != "Clauses" {
-								unknown = append(unknown, pos(s)+": assignment to "+id.Name+"."+sel.Sel.Name)
-							}
-						}
-					}
-				}
-			case *ast.ExprStmt:
-				call, ok := s.X.(*ast.CallExpr)
-				if !ok {
-					continue
-				}
-				sel, ok := call.Fun.(*ast.SelectorExpr)
-				if !ok {
-					continue
-				}
-				// find the processor variable at the root of the chain
-				root := sel.X
-				match := false
-				chainOK := true
-				for {
-					if c, ok := root.(*ast.CallExpr); ok {
-						if cs, ok := c.Fun.(*ast.SelectorExpr); ok {
-							if cs.Sel.Name == "Match" && len(c.Args) == 1 {
-								if a, ok := c.Args[0].(*ast.Ident); ok && a.Name == "enableTransaction" {
-									match = true
-									root = cs.X
-									continue
-								}
-							}
-							chainOK = false
-							root = cs.X
-							continue
-						}
-					}
-					break
-				}
-				id, ok := root.(*ast.Ident)
-				if !ok {
-					continue
-				}
-				proc, isProc := procOf[id.Name]
-				if !isProc {
-					continue
-				}
-				if sel.Sel.Name != "Register" || !chainOK || len(call.Args) != 2 {
-					unknown = append(unknown, pos(s)+": "+proc+": unsupported registration form ."+sel.Sel.Name)
-					continue
-				}
-				lit, ok := call.Args[0].(*ast.BasicLit)
-				if !ok || lit.Kind != token.STRING {
-					unknown = append(unknown, pos(s)+": "+proc+": callback name is not a string literal")
-					continue
-				}
-				regs[proc] = append(regs[proc], c13Reg{Name: strings.Trim(lit.Value, "\"`"), Func: c13FuncName(call.Args[1]), Match: match})
-			}
+		runs := map[string][]string{}
+		for _, mode := range []string{"default", "skipdef"} {
+			h := db.Session(&gorm.Session{SkipDefaultTransaction: mode == "skipdef"})
+			p := &C13Probe{Name: "p-" + mode}
+			runs["create_"+mode] = run(h, func(h *gorm.DB) error { return h.Create(p).Error })
+			runs["update_"+mode] = run(h, func(h *gorm.DB) error { return h.Model(p).Updates(map[string]interface{}{"name": "q"}).Error })
+			runs["query_"+mode] = run(h, func(h *gorm.DB) error { var q C13Probe; return h.First(&q, p.ID).Error })
+			runs["delete_"+mode] = run(h, func(h *gorm.DB) error { return h.Delete(p).Error })
 		}
-		// the order in which each hook callback tries the hook interfaces
-		tries := map[string][]string{}
-		hookFuncs := map[string]string{"BeforeCreate": "create.go", "AfterCreate": "create.go", "BeforeUpdate": "update.go",
-			"AfterUpdate": "update.go", "BeforeDelete": "delete.go", "AfterDelete": "delete.go", "AfterQuery": "query.go"}
-		parsed := map[string]*ast.File{}
-		for fn, file := range hookFuncs {
-			pf := parsed[file]
-			if pf == nil {
-				pf, err = parser.ParseFile(fset, filepath.Join(repo, "callbacks", file), nil, 0)
-				if err != nil {
-					return nil, err
-				}
-				parsed[file] = pf
-			}
-			found := false
-			for _, d := range pf.Decls {
-				fd, ok := d.(*ast.FuncDecl)
-				if !ok || fd.Name.Name != fn || fd.Recv != nil {
-					continue
-				}
-				found = true
-				tries[fn] = []string{}
-				ast.Inspect(fd.Body, func(n ast.Node) bool {
-					if ta, ok := n.(*ast.TypeAssertExpr); ok && ta.Type != nil {
-						if id, ok := ta.Type.(*ast.Ident); ok && strings.HasSuffix(id.Name, "Interface") {
-							tries[fn] = append(tries[fn], strings.TrimSuffix(id.Name, "Interface"))
-						}
-					}
-					return true
-				})
-			}
-			if !found {
-				unknown = append(unknown, "callbacks/"+file+": func "+fn+" not found")
-			}
-		}
-
 		fmt.Fprintf(w, "From Verif Require Import Base.\n")
-		for _, proc := range []string{"create", "update", "delete", "query"} {
-			fmt.Fprintf(w, "Definition c13_%s_order : list (string * string * bool) := [", proc)
-			for i, r := range regs[proc] {
-				if i > 0 {
-					fmt.Fprintf(w, ";")
-				}
-				b := "false"
-				if r.Match {
-					b = "true"
-				}
-				fmt.Fprintf(w, "\n  (%s, %s, %s)", c13Str(r.Name), c13Str(r.Func), b)
-			}
-			fmt.Fprintf(w, "].\n")
+		keys := []string{}
+		for k := range runs {
+			keys = append(keys, k)
 		}
-		for _, fn := range []string{"BeforeCreate", "AfterCreate", "BeforeUpdate", "AfterUpdate", "BeforeDelete", "AfterDelete", "AfterQuery"} {
-			fmt.Fprintf(w, "Definition c13_tries_%s : list string := [", fn)
-			for i, t := range tries[fn] {
-				if i > 0 {
-					fmt.Fprintf(w, "; ")
-				}
-				fmt.Fprintf(w, "%s", c13Str(t))
-			}
-			fmt.Fprintf(w, "].\n")
+		sort.Strings(keys)
+		for _, k := range keys {
+			fmt.Fprintf(w, "Definition c13_run_%s : list string := %s.\n", k, c13List(runs[k]))
 		}
-		fmt.Fprintf(w, "Definition c13_unknown : list string := [")
-		for i, u := range unknown {
-			if i > 0 {
-				fmt.Fprintf(w, "; ")
-			}
-			fmt.Fprintf(w, "%s", c13Str(u))
+		for _, k := range []string{"create", "update", "delete", "query"} {
+			fmt.Fprintf(w, "Definition c13_names_%s : list string := %s.\n", k, c13List(names[k]))
 		}
-		fmt.Fprintf(w, "].\n")
-		return map[string]interface{}{"registrations": regs, "hook_interface_order": tries, "unknown": unknown}, nil
+		rf := "false"
+		if reflected {
+			rf = "true"
+		}
+		fmt.Fprintf(w, "Definition c13_names_reflected : bool := %s.\n", rf)
+		fmt.Fprintf(w, "Definition c13_unknown : list string := %s.\n", c13List(unknown))
+		return map[string]interface{}{"runs": runs, "registered_names": names, "names_reflected": reflected, "unknown": unknown}, nil
 	}
 }
